@@ -102,6 +102,8 @@ Proof.
     destruct (win_of pr ms WNone 0); cbn [acc_inv] in H; tauto.
 Qed.
 
+Definition dfa_nodup (d : dfa) : Prop := forall q, NoDup (dmatch d q).
+
 (* ---------- meaning of scan ---------- *)
 Definition unit_at (rest : list byte) (j : nat) : unit_ :=
   match nth_error rest j with Some b => UB b | None => UEoi end.
@@ -182,8 +184,6 @@ Definition Wins (d : dfa) (rest : list byte) (j : nat) (l : leaf) : Prop :=
 Definition NoMatch (d : dfa) (rest : list byte) (j : nat) : Prop :=
   dmatch d (mstate d (d_start d) rest j) = [].
 
-Definition dfa_nodup (d : dfa) : Prop := forall q, NoDup (dmatch d q).
-
 (* What the context recorded by an attempt must be *)
 Definition MaximalMunch (d : dfa) (rest : list byte) (start : N) (c : ctx) : Prop :=
   match c with
@@ -192,13 +192,29 @@ Definition MaximalMunch (d : dfa) (rest : list byte) (start : N) (c : ctx) : Pro
   | None => forall j, (j <= length rest)%nat -> NoMatch d rest j
   end.
 
+Lemma nodupb_sound l : nodupb l = true -> NoDup l.
+Proof.
+  induction l as [|x r IH]; cbn [nodupb]; intros H; [constructor|].
+  apply andb_prop in H as [H1 H2]. constructor; [|exact (IH H2)].
+  intros Hin. apply negb_true_iff in H1. assert (existsb (N.eqb x) r = true); [|congruence].
+  apply existsb_exists. exists x. split; [exact Hin|apply N.eqb_refl].
+Qed.
+
+Lemma dfa_ok_nodup d : dfa_ok d = true -> dfa_nodup d.
+Proof.
+  unfold dfa_ok. intros H. repeat (apply andb_prop in H as [H _]).
+  intros q. unfold dmatch. destruct (PositiveMap.find q (d_states d)) as [st|] eqn:E; [|constructor].
+  rewrite forallb_forall in H. specialize (H (q, st) (PositiveMap.elements_correct _ _ E)).
+  apply nodupb_sound. exact H.
+Qed.
+
 Lemma dfa_ok_facts d : dfa_ok d = true ->
   PositiveMap.find (d_dead d) (d_states d) = None /\ dmatch d (d_start d) = [] /\
   (forall u, unit_ok u -> dmatch d (dstep d (d_start d) u) = []) /\
   (forall q, win d q <> WTie).
 Proof.
   unfold dfa_ok. intros H. apply andb_prop in H as [H H4]. apply andb_prop in H as [H H3].
-  apply andb_prop in H as [H1 H2]. repeat split.
+  apply andb_prop in H as [H H2]. apply andb_prop in H as [_ H1]. repeat split.
   - apply is_none_true. exact H1.
   - apply nomatch_true. exact H2.
   - intros u Hu. apply nomatch_true. rewrite forallb_forall in H3. apply H3. apply all_units_spec. exact Hu.
@@ -215,10 +231,10 @@ Proof.
 Qed.
 
 Theorem scan_maximal_munch d rest start :
-  dfa_ok d = true -> dfa_nodup d -> bytes_ok rest ->
+  dfa_ok d = true -> bytes_ok rest ->
   MaximalMunch d rest start (scan d (d_start d) rest start None).
 Proof.
-  intros Hok Hnd Hw. destruct (dfa_ok_facts d Hok) as [_ [_ [Hempty Hnotie]]].
+  intros Hok Hw. pose proof (dfa_ok_nodup d Hok) as Hnd. destruct (dfa_ok_facts d Hok) as [_ [_ [Hempty Hnotie]]].
   assert (Hwn : forall j, win_at d (d_start d) rest j = WNone -> NoMatch d rest j).
   { intros j H. unfold win_at, win in H. unfold NoMatch.
     pose proof (win_of_spec (prio d) _ (Hnd (mstate d (d_start d) rest j))) as S. rewrite H in S. exact S. }
@@ -254,4 +270,25 @@ Proof.
   - intros E. contradiction.
   - lia.
   - exists off. rewrite Hoff. rewrite (win_nomatch d _ Hs0). reflexivity.
+Qed.
+
+Lemma bytes_ok_skipn n w : bytes_ok w -> bytes_ok (skipn n w).
+Proof.
+  unfold bytes_ok. revert w. induction n as [|n IH]; intros w H; [exact H|].
+  destruct w as [|b w]; [constructor|]. cbn [skipn]. apply IH. inversion H; assumption.
+Qed.
+
+Lemma C01_maximal_munch_proof : forall d g V D,
+  dfa_ok d = true -> sim_ok d g V D = true ->
+  forall (w : list byte) (start : N), bytes_ok w -> start < N.of_nat (length w) ->
+  exists c off, attempt_ref g false start (skipn (N.to_nat start) w) = Acted c off /\
+                MaximalMunch d (skipn (N.to_nat start) w) start c.
+Proof.
+  intros d g V D Hok Hsim w start Hw Hlt.
+  assert (Hne : skipn (N.to_nat start) w <> []).
+  { intros E. assert (L : length (skipn (N.to_nat start) w) = 0%nat) by (rewrite E; reflexivity).
+    rewrite skipn_length in L. lia. }
+  destruct (attempt_ctx_correct d g V D start _ Hok Hsim (bytes_ok_skipn _ w Hw) Hne) as [off Hoff].
+  exists (scan d (d_start d) (skipn (N.to_nat start) w) start None), off. split; [exact Hoff|].
+  apply scan_maximal_munch; [exact Hok|apply bytes_ok_skipn; exact Hw].
 Qed.
